@@ -4,6 +4,7 @@ import NutsModel.C11.Wire
 import NutsModel.C11.ValidAt
 import NutsModel.C11.CredStatus
 import NutsModel.C11.Reprocess
+import NutsModel.C11.Resolve
 import NutsModel.Facts.C11
 open Lean Nuts.Drv Nuts.C11 Nuts
 
@@ -459,6 +460,8 @@ structure St where
   w : World := emptyWorld
   issued : Array (String × String × Option (List StatusEntry)) := #[]   -- (id, issuer, status entry)
   netRevoked : List Nat := []
+  acreds : List (String × String × Bool) := []     -- a harness: the node's credential store (id, issuer, expires in one hour)
+  atrusted : List String := []                      -- a harness: issuers the operator trusts for TestCredential
 
 def iDids : List String :=
   ["did:nuts:AAAAAAAAAAAAAAAAAAAAAAAAAAAAAAAAAAAAAAAAAAAA", "did:nuts:BBBBBBBBBBBBBBBBBBBBBBBBBBBBBBBBBBBBBBBBBBBB",
@@ -468,9 +471,40 @@ def keyEnvI : KeyEnv :=
   { resolveKey := fun vm _ => if (iDids.map (· ++ "#k1")).contains vm then some vm else none
     sigOK := fun pk _ sig => sig == "sig:" ++ pk }
 
+/-- the a harness's credential store as `Stored` documents: TestCredential issued one hour ago (virtual minute -60), optionally
+    expiring in one hour; trust as configured at the moment of the call -/
+def aStore (creds : List (String × String × Bool)) (trusted : List String) : List Stored :=
+  creds.map fun (id, issuer, exp) =>
+    { cred := { id := some id, issuer := issuer, statuses := none }, nutsType := false, trusted := trusted.contains issuer
+      period := fun t => decide (-60 ≤ t) && (!exp || decide (t ≤ 60)) }
+
 /-- fourth harness (vcr/issuer): issuer and verifier of one node (node 0) -/
 def stepSt (st : St) (j : Json) : St × List String :=
   match jStr j "op" with
+  | "areset" =>
+    let (w', ls) := step st.w j
+    ({ st with w := w', acreds := [], atrusted := [] }, ls)
+  | "astore" =>
+    let id := jStr j "id"
+    if st.acreds.any (fun c => c.1 == id) then (st, ["astore exists"]) else
+    let issuer := if jStr j "issuer" == "" then prefixOf id else jStr j "issuer"
+    ({ st with acreds := st.acreds ++ [(id, issuer, jBool j "exp")] }, ["astore ok"])
+  | "atrust" => ({ st with atrusted := jStr j "issuer" :: st.atrusted }, ["atrust ok"])
+  | "aresolve" =>
+    let atMin := jInt j "at"
+    let (o, w') := resolve env true st.w (aStore st.acreds st.atrusted) (jStr j "id") false (if atMin == 0 then none else some atMin) 0
+    let line := match o with
+      | .notFound => "cred=false notfound"
+      | .cred => "cred=true ok"
+      | .credAnd e => s!"cred=true {e}"
+      | .err e => "cred=false " ++ (if e == "status list: revoked" then "revoked" else "err:" ++ e)
+    ({ st with w := w' }, ["aresolve " ++ line])
+  | "asearch" =>
+    let atMin := jInt j "at"
+    let docs := (aStore st.acreds st.atrusted).filter (fun s => hasSub s.cred.issuer "did:nuts:")
+    let (res, w') := search env true st.w docs (jBool j "untrusted") false (if atMin == 0 then none else some atMin) 0
+    let ids := (res.map (fun s => s.cred.id.getD "")).mergeSort (fun a b => !(b < a))
+    ({ st with w := w' }, ["asearch [" ++ String.intercalate " " ids ++ "]"])
   | "ireset" => ({ w := { a := { base := "https://node.example", dids := iDids }, b := { base := bases[1]! } } }, ["ireset"])
   | "iissue" =>
     let issuer := jStr j "issuer"
